@@ -39,6 +39,17 @@ Oracle (invariants written from the statement and USB 2.0 ch. 8; no luna code):
  * the kind of answer is admissible for what solicited it (USB 2.0 8.4.5 / 8.5): IN -> DATAx, NAK or STALL; OUT data
    and PING -> a handshake; SETUP data -> ACK only.  (Separate mechanism names: `answer_kind_*`.)
 
+Known findings (findings/C20.md; each classifier is narrow, every other deviation keeps its own mechanism name):
+ * `unsolicited_zlp_stream_from_distributed_descriptor_handler` - only on devices built with avoid_blockram=True, while the
+   current control request is a GET_DESCRIPTOR, for a run of device packets <= 5 cycles apart that contains >= 3 clean
+   zero-length data packets of the data packet generator: whatever the monitors report inside that run (unsolicited /
+   second packet, tx while rx_active, two transmitters, source change, CRC16) is reported once under this name, and the
+   run's packets (all but the first) do not take part in the solicitation bookkeeping of later packets;
+ * `ack_handshake_answers_status_in_of_in_request_with_wlength_0` - ACK handshake to an IN token for endpoint 0 while the
+   current control request is device-to-host with wLength = 0;
+ * `ack_handshake_answers_status_in_after_unfinished_control_transfer` - ACK handshake to an IN token for endpoint 0 after
+   the host left an earlier control transfer unfinished and no control transfer has completed since (C07's stale state).
+
 Not judged: which handshake / which data is correct (C07-C17), latency below the bus time-out (C05), stability of
 ``tx_data`` while ``tx_ready`` is low (C03), the device's behaviour under an illegal host (overlapping packets,
 babble, missing data phase).  A ``tx_valid`` cycle that none of the three tapped transmitters drives (a fourth source
@@ -48,7 +59,7 @@ Deviation from DESIGN section 7: the wire-fault share (design: legal-host flag a
 from rv.ref import usb2 as U
 
 PROPERTY = "C20"
-CASES = {"quick": 192, "thorough": 3200}
+CASES = {"quick": 160, "thorough": 2400}
 RULE = ("case = one session on a device with control + 1-2 bulk IN + 1-2 bulk OUT + status endpoints (random numbers / packet "
         "sizes / mux order / fs12|fs60|hs timing / bus time-out / rx gap and tx_ready profiles): 45-70 legal-host operations "
         "(control transfers incl. aborted / stalled / un-ACKed, bulk IN/OUT, polls, PING, SOF, absent endpoints, foreign "
@@ -771,6 +782,40 @@ def run_case(rng, tier, res):
         if not cur["src"][0]:
             viol(b.cycle, "packet_never_ends", "tx_valid high from cycle %d to the end of the session (%d bytes accepted)" % (cur["first_valid"], len(cur["data"])))
 
+    # ------------------------------------------------------------------ classifier for the known finding (findings/C20.md)
+    # "ZLP stream": a run of device packets that follow each other within <= 5 cycles (no host can solicit that) and contains
+    # >= 3 clean zero-length data packets from the data packet generator, on a device whose standard request handler uses
+    # the distributed (avoid_blockram) descriptor generator, while the current control request is a GET_DESCRIPTOR.
+    # Everything the monitors report inside such a stream is reported once, under one mechanism name; everything else
+    # keeps its name.
+    def clean_zlp(p):
+        d = bytes(p["data"])
+        return len(d) == 3 and d[0] in (U.pid_byte(U.DATA0), U.pid_byte(U.DATA1)) and d[1:] == b"\x00\x00" and p["src"] == (0, 1, 0)
+
+    def zlp_like(p):
+        # a member of the stream may be garbled by the host's packet / the handshake generator running into it
+        d = bytes(p["data"])
+        # (with two transmitters valid the one-hot multiplexer outputs neither's data, so the bytes may be anything)
+        return len(d) <= 8 and p["src"][1] == 1
+
+    streams = []
+    run = []
+    for p in [q for q in dpk if not q["src"][0]] + [None]:
+        if p is not None and zlp_like(p) and (not run or p["first_valid"] - run[-1]["end"] <= 5):
+            run.append(p)
+            continue
+        if sum(1 for q in run if clean_zlp(q)) >= 3:
+            streams.append((run[0]["first_valid"], run[-1]["end"] + 4, len(run)))
+        run = [p] if p is not None and zlp_like(p) else []
+    known_streams = []
+    for s0, s1, n in streams:
+        ctx = None
+        for c in ctl_log:
+            if c[0] <= s0:
+                ctx = c
+        if avoid_blockram and ctx is not None and ctx[1][0] == 0x80 and ctx[1][1] == 6:
+            known_streams.append((s0, s1, n, ctx))
+
     # ------------------------------------------------------------------ judge the packets
     hlog = host.hlog
     events = [(h["start"], 0, h) for h in hlog] + [(p["first_valid"], 1, p) for p in dpk]
@@ -833,6 +878,9 @@ def run_case(rng, tier, res):
 
         # ---------------------------------------------------------------- a device packet
         p = x
+        # packets of a known ZLP stream (all but its first, solicited one) are reported by the classifier; they must not
+        # make the *next* legitimate answer look like a second packet / an answer to nothing
+        member = any(k[0] < p["first_valid"] <= k[1] for k in known_streams)
         res.event("device_packets")
         data = bytes(p["data"])
         src = p["src"]
@@ -943,42 +991,12 @@ def run_case(rng, tier, res):
                     res.bin("answer_to_setup_ack")
                 elif kind in ("handshake", "data"):
                     viol(p["first_valid"], "answer_kind_not_ack_to_setup", "SETUP data %s answered with %s; ops=%s" % (last["h"]["bytes"].hex(), data[:12].hex(), ops_at(p["first_valid"])))
-        answered = True
-        prev_dev = p
-        prev_kind = kind
+        if not member:
+            answered = True
+            prev_dev = p
+            prev_kind = kind
 
-    # ------------------------------------------------------------------ classifier for the known finding (findings/C20.md)
-    # "ZLP stream": >= 3 device packets that follow each other within <= 4 cycles (no host can solicit that), each starting
-    # with a zero-length data packet from the data packet generator, on a device whose standard request handler uses the
-    # distributed (avoid_blockram) descriptor generator, while the current control request is a GET_DESCRIPTOR.  Everything
-    # the monitors report inside such a stream is reported once, under one mechanism name; everything else keeps its name.
-    def clean_zlp(p):
-        d = bytes(p["data"])
-        return len(d) == 3 and d[0] in (U.pid_byte(U.DATA0), U.pid_byte(U.DATA1)) and d[1:] == b"\x00\x00" and p["src"] == (0, 1, 0)
-
-    def zlp_like(p):
-        # a member of the stream may be garbled by the host's packet / the handshake generator running into it
-        d = bytes(p["data"])
-        # (with two transmitters valid the one-hot multiplexer outputs neither's data, so the bytes may be anything)
-        return len(d) <= 4 and p["src"][1] == 1
-
-    streams = []
-    run = []
-    for p in [q for q in dpk if not q["src"][0]] + [None]:
-        if p is not None and zlp_like(p) and (not run or p["first_valid"] - run[-1]["end"] <= 5):
-            run.append(p)
-            continue
-        if sum(1 for q in run if clean_zlp(q)) >= 3:
-            streams.append((run[0]["first_valid"], run[-1]["end"] + 2, len(run)))
-        run = [p] if p is not None and zlp_like(p) else []
-    known_streams = []
-    for s0, s1, n in streams:
-        ctx = None
-        for c in ctl_log:
-            if c[0] <= s0:
-                ctx = c
-        if avoid_blockram and ctx is not None and ctx[1][0] == 0x80 and ctx[1][1] == 6:
-            known_streams.append((s0, s1, n, ctx))
+    # ------------------------------------------------------------------ report
     reported = set()
     for cycle, mech, detail in sorted(raw, key=lambda t: t[0]):
         ks = [k for k in known_streams if k[0] <= cycle <= k[1]]
